@@ -189,14 +189,22 @@ func corr(args []string) {
 		return
 	}
 	// primitives
-	for n := 0; n <= 600; n++ {
-		cases.Printf("R %d\n", n)
-		impl.Printf("%d\n", ach.VerifRoundUp10(n))
-	}
 	r := rng.New(seed*131 + 5)
 	cd := func(s string) {
 		cases.Printf("D %s\n", hx.Enc(s))
 		impl.Printf("%d\n", ach.CalculateCheckDigit(s))
+	}
+	// all routing prefixes over the digits {8,9} and {0,9}: the largest weighted sums
+	for m := 0; m < 256; m++ {
+		a, b := []byte("00000000"), []byte("00000000")
+		for k := 0; k < 8; k++ {
+			a[k] = byte('8' + (m>>k)&1)
+			if (m>>k)&1 == 1 {
+				b[k] = '9'
+			}
+		}
+		cd(string(a))
+		cd(string(b))
 	}
 	for pos := 0; pos < 8; pos++ {
 		for d := 0; d < 10; d++ {
